@@ -212,6 +212,15 @@ class FunctionTransformer(ast.NodeTransformer):
     def visit_FunctionDef(self, n):
         return n  # nested defs are left as written (their loops are not cut)
 
+    def visit_AugAssign(self, n):
+        """`name += value`: kept in place for Python lists extended by Python iterables; a list extended by a SYMBOLIC sequence becomes the
+        concatenation (the local name is rebound - sound as long as the list is not aliased, which Engine F's provenance covers for locals)"""
+        n.value = self.visit(n.value)
+        if isinstance(n.op, ast.Add) and isinstance(n.target, ast.Name):
+            return ast.Assign(targets=[_name(n.target.id, ast.Store())], value=_call("iadd", _name(n.target.id), n.value))
+        n.target = self.visit(n.target)
+        return n
+
     def visit_Lambda(self, n):
         return n
 
